@@ -1192,21 +1192,41 @@ async fn client(name: String, prog: Vec<Op>) {
         }
         n += 1;
         ev(json!({"ev": "op_begin", "task": name, "n": n, "o": o}));
-        // d = 1 on an awaiting operation: poll it once and, if it is still pending, drop it (a select! that lost, a timeout)
-        let cancellable = o.d == 1 && matches!(o.op.as_str(), "send" | "call" | "ping" | "await_ref" | "try_halt" | "join" | "halt" | "await" | "consume");
+        // d = 1 on an awaiting operation: poll it once and, if it is still pending, drop it (a select! that lost, a timeout);
+        // d = 4: the same after up to three polls (the caller gives up a little later: the operation is under way)
+        let cancellable = (o.d == 1 || o.d == 4)
+            && matches!(o.op.as_str(), "send" | "call" | "ping" | "await_ref" | "try_halt" | "join" | "halt" | "await" | "consume" | "from_registry" | "setup");
         let mut self_woken = false;
         let res = if cancellable {
             let ex = crate::actors::exec();
-            let before = ex.task_woken(&name);
+            let polls_allowed = if o.d == 4 { 3 } else { 1 };
             let mut f = Box::pin(run_op(&name, n, o));
-            match futures::poll!(f.as_mut()) {
-                std::task::Poll::Ready(res) => res,
-                std::task::Poll::Pending => {
-                    // did the call merely yield to the executor (it asked to be polled again at once), or is it
-                    // waiting for something?  Only in the first case may it have done nothing yet.
-                    self_woken = before || ex.task_woken(&name);
-                    drop(f);
-                    r("cancelled", "*".into())
+            let mut k = 0;
+            loop {
+                let before = ex.task_woken(&name);
+                match futures::poll!(f.as_mut()) {
+                    std::task::Poll::Ready(res) => break res,
+                    std::task::Poll::Pending => {
+                        k += 1;
+                        if k >= polls_allowed {
+                            // did the call merely yield to the executor (it asked to be polled again at once), or is it
+                            // waiting for something?  Only in the first case may it have done nothing yet.
+                            self_woken = before || ex.task_woken(&name);
+                            drop(f);
+                            break r("cancelled", "*".into());
+                        }
+                        // suspend this client until the operation's waker (the client's own) is invoked
+                        let mut once = false;
+                        futures::future::poll_fn(|_| {
+                            if once {
+                                std::task::Poll::Ready(())
+                            } else {
+                                once = true;
+                                std::task::Poll::Pending
+                            }
+                        })
+                        .await;
+                    }
                 }
             }
         } else {
